@@ -934,9 +934,9 @@ theorem n03_createReexportElements_log (env : Env) (moduleId : String) : (els : 
     rw [wp_pure]
     exact (((((h1.trans h2).trans h3).trans h4).trans (n03_LR.of_tr h5)).trans h6).cast (by simp [n03_restubLog])
 
-/-- the log of the whole re-export phase: per queued module id, its nodes sorted by name -/
+/-- the log of the whole re-export phase: per queued module id, its nodes sorted by `(name, id)` -/
 def n03_reexportPhaseLog (env : Env) (q : List (String × List Node)) : List LogEntry :=
-  q.flatMap fun kv => n03_restubLog env kv.1 (sortBy (fun (a b : Node) => strLe a.name b.name) kv.2)
+  q.flatMap fun kv => n03_restubLog env kv.1 (sortBy nodeLe kv.2)
 
 theorem n03_createReexportModules_log (env : Env) : (q : List (String × List Node)) → ∀ st,
     wp (createReexportModules env q) (fun _ st' => n03_LR st st' (n03_reexportPhaseLog env q)) st
@@ -965,6 +965,117 @@ theorem n03_createReexportModuleStrings_log (env : Env) (st : St) :
   unfold createReexportModuleStrings
   rw [wp_bind, wp_get]
   exact n03_createReexportModules_log env st.reexports st
+
+/-! ### the order of the re-exported elements (`nodeLe`) is canonical -/
+
+section n03_SortSec
+variable {α : Type}
+
+theorem n03_insertBy_pairwise (le : α → α → Bool)
+    (total : ∀ a b, le a b = true ∨ le b a = true)
+    (trans : ∀ a b c, le a b = true → le b c = true → le a c = true)
+    (a : α) (l : List α) (h : l.Pairwise (fun x y => le x y = true)) :
+    (insertBy le a l).Pairwise (fun x y => le x y = true) := by
+  induction l with
+  | nil => simp [insertBy]
+  | cons b bs ih =>
+    rw [List.pairwise_cons] at h
+    unfold insertBy
+    split
+    · rename_i hab
+      refine List.pairwise_cons.2 ⟨?_, List.pairwise_cons.2 h⟩
+      intro x hx
+      rcases List.mem_cons.1 hx with rfl | hx
+      · exact hab
+      · exact trans _ _ _ hab (h.1 x hx)
+    · rename_i hab
+      have hba : le b a = true := (total a b).resolve_left hab
+      refine List.pairwise_cons.2 ⟨?_, ih h.2⟩
+      intro x hx
+      rcases List.mem_cons.1 ((insertBy_perm_mk le a bs).mem_iff.1 hx) with rfl | hx
+      · exact hba
+      · exact h.1 x hx
+
+theorem n03_sortBy_pairwise (le : α → α → Bool)
+    (total : ∀ a b, le a b = true ∨ le b a = true)
+    (trans : ∀ a b c, le a b = true → le b c = true → le a c = true)
+    (l : List α) : (sortBy le l).Pairwise (fun x y => le x y = true) := by
+  induction l with
+  | nil => simp [sortBy]
+  | cons a as ih => exact n03_insertBy_pairwise le total trans a _ ih
+
+/-- insertion sort by a total preorder that is antisymmetric on the members of the list gives the same
+    result on every permutation of the list -/
+theorem n03_sortBy_perm_invariant (le : α → α → Bool)
+    (total : ∀ a b, le a b = true ∨ le b a = true)
+    (trans : ∀ a b c, le a b = true → le b c = true → le a c = true)
+    {l l' : List α}
+    (antisymm : ∀ a ∈ l, ∀ b ∈ l, le a b = true → le b a = true → a = b)
+    (h : l ~ l') : sortBy le l = sortBy le l' := by
+  have hp : sortBy le l ~ sortBy le l' :=
+    (sortBy_perm_mk le l).trans (h.trans (sortBy_perm_mk le l').symm)
+  refine List.Perm.eq_of_pairwise (le := fun x y => le x y = true) ?_
+    (n03_sortBy_pairwise le total trans l) (n03_sortBy_pairwise le total trans l') hp
+  intro a b ha hb hab hba
+  exact antisymm a ((sortBy_perm_mk le l).mem_iff.1 ha) b
+    (h.mem_iff.2 ((sortBy_perm_mk le l').mem_iff.1 hb)) hab hba
+
+end n03_SortSec
+
+theorem n03_strLe_iff (a b : String) : strLe a b = true ↔ a ≤ b := by
+  unfold strLe
+  rw [Bool.not_eq_true', decide_eq_false_iff_not]
+  exact not_lt
+
+/-- `nodeLe` is the lexicographic order on `(name, id)` -/
+theorem n03_nodeLe_iff (a b : Node) :
+    nodeLe a b = true ↔ a.name < b.name ∨ (a.name = b.name ∧ a.id ≤ b.id) := by
+  unfold nodeLe
+  by_cases h : a.name = b.name
+  · simp [h, n03_strLe_iff]
+  · simp only [beq_iff_eq, h, if_false, n03_strLe_iff, false_and, or_false]
+    exact ⟨fun h' => lt_of_le_of_ne h' h, le_of_lt⟩
+
+theorem n03_nodeLe_total (a b : Node) : nodeLe a b = true ∨ nodeLe b a = true := by
+  simp only [n03_nodeLe_iff]
+  rcases lt_trichotomy a.name b.name with h | h | h
+  · exact Or.inl (Or.inl h)
+  · rcases le_total a.id b.id with h' | h'
+    · exact Or.inl (Or.inr ⟨h, h'⟩)
+    · exact Or.inr (Or.inr ⟨h.symm, h'⟩)
+  · exact Or.inr (Or.inl h)
+
+theorem n03_nodeLe_trans (a b c : Node) : nodeLe a b = true → nodeLe b c = true → nodeLe a c = true := by
+  simp only [n03_nodeLe_iff]
+  rintro (h1 | ⟨h1, h1'⟩) (h2 | ⟨h2, h2'⟩)
+  · exact Or.inl (lt_trans h1 h2)
+  · exact Or.inl (h2 ▸ h1)
+  · exact Or.inl (h1 ▸ h2)
+  · exact Or.inr ⟨h1.trans h2, le_trans h1' h2'⟩
+
+/-- `nodeLe` in both directions: same `(name, id)` -/
+theorem n03_nodeLe_antisymm (a b : Node) :
+    nodeLe a b = true → nodeLe b a = true → a.name = b.name ∧ a.id = b.id := by
+  simp only [n03_nodeLe_iff]
+  rintro (h1 | ⟨h1, h1'⟩) (h2 | ⟨h2, h2'⟩)
+  · exact absurd h1 (lt_asymm h2)
+  · exact absurd h1 (h2 ▸ lt_irrefl _)
+  · exact absurd h2 (h1 ▸ lt_irrefl _)
+  · exact ⟨h1, le_antisymm h1' h2'⟩
+
+/-- the sorted list of the queued nodes is a function of their multiset as soon as `(name, id)` identifies
+    a node among them -/
+theorem n03_sortBy_nodeLe_perm {l l' : List Node} (h : l ~ l')
+    (hinj : ∀ a ∈ l, ∀ b ∈ l, a.name = b.name → a.id = b.id → a = b) :
+    sortBy nodeLe l = sortBy nodeLe l' :=
+  n03_sortBy_perm_invariant nodeLe n03_nodeLe_total n03_nodeLe_trans
+    (fun a ha b hb h1 h2 =>
+      hinj a ha b hb (n03_nodeLe_antisymm a b h1 h2).1 (n03_nodeLe_antisymm a b h1 h2).2) h
+
+/-- the sorted list is sorted: adjacent (indeed all) pairs are in `nodeLe` order -/
+theorem n03_sortBy_nodeLe_pairwise (l : List Node) :
+    (sortBy nodeLe l).Pairwise (fun x y => nodeLe x y = true) :=
+  n03_sortBy_pairwise nodeLe n03_nodeLe_total n03_nodeLe_trans l
 
 /-! ### when a declaration moves -/
 
